@@ -469,8 +469,13 @@ def _collect_concats(formulas, seen, out):
             continue
         seen.add(i)
         if z3.is_app(e):
-            if e.decl().kind() in (z3.Z3_OP_SEQ_CONCAT, z3.Z3_OP_SEQ_UNIT):
-                out.append(e)
+            k = e.decl().kind()
+            if k == z3.Z3_OP_EQ:
+                # sequences that are one side of an equation: a homomorphism applied to one side must agree with the
+                # other side (h(a ++ b) == h(c ++ d)); units matter likewise (h(unit(p)) == unit(g(p)))
+                for ch in e.children():
+                    if z3.is_app_of(ch, z3.Z3_OP_SEQ_UNIT) or z3.is_app_of(ch, z3.Z3_OP_SEQ_CONCAT):
+                        out.append(ch)
             stack.extend(e.children())
         elif z3.is_quantifier(e):
             stack.append(e.body())
@@ -489,11 +494,13 @@ def instantiate_axioms(formulas, rounds=5):
     cseen = set()
     extras = {}
     concats = []
-    for _ in range(rounds):
+    for rnd in range(rounds):
         apps = []
         for f in work:
             _walk(f, seen, apps)
-        _collect_concats(work, cseen, concats)
+        if rnd == 0:
+            # seeds of the eager application: equation sides of the *given* formulas only (not of derived axioms)
+            _collect_concats(work, cseen, concats)
         for sf, app in apps:
             ex = tuple(app.arg(i) for i in range(sf.nextra))
             extras.setdefault(sf.name, {})[tuple(a.get_id() for a in ex)] = ex
